@@ -71,7 +71,11 @@ func init() {
 		snaps, pm, stuck := runSchedule(s)
 		fmt.Printf("%s: snapshots=%d panic=%q stuck=%v\n", s.String(), len(snaps), pm, stuck)
 		n := len(snaps)
-		for i := n - 3; i < n; i++ {
+		first := n - 3
+		if os.Getenv("VERIF_VERBOSE") != "" {
+			first = 0
+		}
+		for i := first; i < n; i++ {
 			if i >= 0 {
 				fmt.Println(string(snaps[i]))
 			}
